@@ -8,8 +8,9 @@ One case per input line:
    "argv": [{"t":"set|append","k":[seg…],"v":VAL} | {"t":"item","k":[seg…],"i":STR,"v":VAL} | {"t":"cfg","k":[seg…],"tree":TREE}…],
    "method": "args|env|string|object", "tree": TREE?}
 VAL  = null | INT | {"s": STR} | [VAL…] | {"d": [[STR, VAL]…]} | {"n": [[STR, VAL]…]};  TREE = {"d": [[STR, VAL]…]}
-Output: {"model": VAL, "ok": BOOL, "ref": VAL}  — the model pipeline's namespace, its acceptance, and `refFold` over the
-flattened sources.  Scalars are opaque to the model: ints travel as `atom (2*i)`, strings as `atom (2*code+1)`.
+Output: {"model": VAL, "ok": BOOL, "ref": VAL, "domain": BOOL, "guard": BOOL}  — the model pipeline's namespace, its
+acceptance, `refFold` over the flattened sources, whether the case satisfies the hypotheses `wfParser`/`srcWf`/`treeOk` of
+the theorems of Props/C04, and whether the guard `envPlain` of C04_order holds at every non-config key.  Scalars are opaque to the model: ints travel as `atom (2*i)`, strings as `atom (2*code+1)`.
 -/
 import Lean.Data.Json
 import Jap.Core.Sources
@@ -138,8 +139,14 @@ def runCase (j : Json) : Except String Json := do
     | "string" => pure (parseString p src tree, true, asgBase p src (envOn p) ++ asgTree (expand p tree))
     | "object" => pure (parseObject p src tree, true, asgBase p src (envOn p) ++ asgTree (expand p tree))
     | m => throw ("bad method " ++ m)
+  -- is the case inside the domain of the theorems of Props/C04, and does the guard of C04_order hold at every non-config key?
+  let envRead := method == "env" || envOn p
+  let treeWf := if method == "string" || method == "object" then treeOk p (expand p tree) else true
+  let srcUsed : Sources := if method == "args" then src else { src with argv := [] }
+  let inDomain := wfParser p && srcWf p srcUsed && treeWf && itemsOk
+  let guard := !envRead || p.args.all (fun a => a.kind == .config || envPlain p src.env a.dest)
   pure (Json.mkObj [("model", vToJson (.ns cfg)), ("ok", .bool (itemsOk && valid p cfg)),
-                    ("ref", vToJson (.ns (refFold asg [])))])
+                    ("ref", vToJson (.ns (refFold asg []))), ("domain", .bool inDomain), ("guard", .bool guard)])
 
 partial def loop (h : IO.FS.Stream) (out : IO.FS.Stream) : IO Unit := do
   let line ← h.getLine
